@@ -1004,8 +1004,13 @@ void Adaptation::Icap::ModXact::prepEchoing()
     if (oldHead->body_pipe != nullptr) {
         debugs(93, 7, "will echo virgin body from " <<
                oldHead->body_pipe);
-        if (!virginBodySending.active())
+        if (!virginBodySending.active()) {
+            // stopBackup() may have disabled the backup (100 Continue, unknown status code, 200 OK)
+            // although every received virgin byte is still buffered: the echo can start from offset 0
+            if (virginBodySending.disabled() && !virginConsumed)
+                virginBodySending = VirginBodyAct();
             virginBodySending.plan(); // will throw if not possible
+        }
         state.sending = State::sendingVirgin;
         checkConsuming();
 
